@@ -13,9 +13,12 @@ func (s *stateMachine[V, H, A]) ProcessStart(round types.Round) []actions.Action
 		return nil
 	}
 	s.isHeightStarted = true
+	// Copy the height: the record is written by the driver after this batch of rules
+	// has run, and the batch may already decide the height and move on to the next.
+	start := wal.Start(s.state.height)
 	return s.processLoop(
 		[]actions.Action[V, H, A]{
-			&actions.WriteWAL[V, H, A]{Entry: (*wal.Start)(&s.state.height)},
+			&actions.WriteWAL[V, H, A]{Entry: &start},
 			s.startRound(round),
 		},
 		nil,
